@@ -488,6 +488,22 @@ def r5_2(ctx):
                 facts_ += [(norm(t0), v0) for t0, v0 in g_.branch_facts(nid)]
             pos = {(f"{amount} > 0", True), (f"0 < {amount}", True), (f"{amount} >= 1", True), (f"1 <= {amount}", True), (f"{amount} <= 0", False), (f"{amount} < 1", False), (f"0 >= {amount}", False), (f"1 > {amount}", False)}
             clamped = any(isinstance(x, ast.Assign) and norm(x.targets[0]) == amount and norm(x.value) in (f"max({amount}, 0)", f"max(0, {amount})") for x in walk_local(hfn.node))
+            if hfn is not f:
+                # the shift lives in a helper: the facts that hold at the call `self.<helper>(count)` in the method count too
+                gf = cfgmod.build(f.node)
+                for c1 in walk_local(f.node):
+                    if isinstance(c1, ast.Call) and isinstance(c1.func, ast.Attribute) and norm(c1.func.value) == "self" and c1.func.attr == hfn.node.name and len(c1.args) == 1 and norm(c1.args[0]) == cnt:
+                        cs_ = c1
+                        while not isinstance(cs_, ast.stmt):
+                            cs_ = m.parent_of[cs_]
+                        cf = set()
+                        for nid in gf.nodes_of(cs_):
+                            cf |= {(norm(t0), v0) for t0, v0 in gf.branch_facts(nid)}
+                        posc = {(t.replace(amount, cnt) if False else t, v) for t, v in [(f"{cnt} > 0", True), (f"0 < {cnt}", True), (f"{cnt} >= 1", True), (f"1 <= {cnt}", True), (f"{cnt} <= 0", False), (f"{cnt} < 1", False)]}
+                        if posc & cf:
+                            clamped = True
+                        else:
+                            facts_ += sorted(cf)
             n += 1
             ctx.check(bool(pos & set(facts_)) or clamped, hfn.fq, short(st_), f"{m.relpath}:{st_.lineno}", f"the span shift runs only for `{amount}` > 0, where it equals the number of characters inserted",
                       f"{name}: spans are shifted by `{amount}` under the guard {[t for t, v in facts_] or 'none'}, which admits negative amounts: `character * {amount}` inserts nothing then, but every span moves left by |{amount}| - styles land on the wrong characters and Text.render runs out of its style stack (RuntimeError) for spans pushed below 0")
